@@ -254,3 +254,113 @@ func specSizeOK(size int, lower int, upper int) bool {
 //@     invariant fresh(errors) && 0 <= rangeindex+1 && len(errors) == rangeindex+1 && rangeindex+1 <= len(rangeover) && len(rangeover) == len(p.errors) && fresh(p.messages)
 //@   loop 3
 //@     invariant fresh(warnings) && fresh(errors) && 0 <= rangeindex+1 && rangeindex+1 <= len(rangeover) && len(errors) == len(p.errors) && fresh(p.messages)
+
+// ---------------------------------------------------------------------------------------------
+// Lexer. lexOK is the invariant every lexer method keeps: the token being scanned is a window of the input.
+
+//@ predicate lexOK(l *lexer) = l != nil && 0 <= l.start && l.start <= l.pos && l.pos <= len(l.input) && l.tokens != nil && !closed(l.tokens)
+
+//@ func (*lexer).acceptRun
+//@   property C06 C15
+//@   owns sml.lexer
+//@   modifies l.pos, l.width
+//@   requires lexOK(l)
+//@   ensures lexOK(l) && old(l.pos) <= l.pos && l.start == old(l.start) && sent(l.tokens) == old(sent(l.tokens))
+//@   loop 1
+//@     invariant lexOK(l) && old(l.pos) <= l.pos && l.start == old(l.start) && sent(l.tokens) == old(sent(l.tokens))
+
+//@ func (*lexer).emitSpaceRemoved
+//@   property C06 C15
+//@   owns sml.lexer, sml.token
+//@   modifies l.start
+//@   requires lexOK(l)
+//@   ensures lexOK(l) && l.start == l.pos && l.pos == old(l.pos) && sent(l.tokens) == old(sent(l.tokens)) + 1 && lastsent(l.tokens).typ == t
+//@   loop 1
+//@     invariant fresh(val) && 0 <= iterpos
+
+//@ func lexEOF
+//@   property C06
+//@   owns sml.lexer, sml.token
+//@   modifies l.start
+//@   requires lexOK(l)
+//@   ensures sent(l.tokens) == old(sent(l.tokens)) + 1 && lastsent(l.tokens).typ == tokenTypeEOF && closed(l.tokens)
+
+//@ func (*lexer).errorf
+//@   property C06
+//@   owns sml.lexer, sml.token
+//@   requires lexOK(l)
+//@   ensures sent(l.tokens) == old(sent(l.tokens)) + 1 && lastsent(l.tokens).typ == tokenTypeError && closed(l.tokens)
+
+//@ func lexQuotedString
+//@   property C05 C06
+//@   owns sml.lexer, sml.token
+//@   modifies l.pos, l.start, l.width
+//@   requires lexOK(l) && l.start == l.pos && l.pos < len(l.input) && l.input[l.pos] == '"'
+//@   let tok = lastsent(l.tokens)
+//@   ensures sent(l.tokens) == old(sent(l.tokens)) + 1
+//@   ensures tok.typ == tokenTypeQuotedString || tok.typ == tokenTypeError
+//@   ensures tok.typ == tokenTypeQuotedString ==> lexOK(l) && l.start == l.pos && tok.val == substr(l.input, old(l.pos), l.pos)
+//@   ensures tok.typ == tokenTypeQuotedString ==> len(tok.val) >= 2 && tok.val[0] == '"' && tok.val[len(tok.val)-1] == '"'
+//@   ensures tok.typ == tokenTypeQuotedString ==> forall k int :: 1 <= k && k < len(tok.val) - 1 ==> tok.val[k] != '"' && tok.val[k] != 10 && tok.val[k] != 13
+
+//@ func lexComment
+//@   property C08 C06
+//@   owns sml.lexer, sml.token
+//@   modifies l.pos, l.start
+//@   requires lexOK(l) && l.pos + 2 <= len(l.input) && l.input[l.pos] == '/' && l.input[l.pos+1] == '/'
+//@   let p0 = old(l.pos)
+//@   let nl = str_index(substr(l.input, p0, len(l.input)), "\n")
+//@   let tok = lastsent(l.tokens)
+//@   ensures sent(l.tokens) == old(sent(l.tokens)) + 1 && tok.typ == tokenTypeComment && lexOK(l) && l.start == l.pos
+//@   ensures tok.val == substr(l.input, old(l.start), l.pos) && p0 + 2 <= l.pos
+//@   ensures nl < 0 ==> l.pos == len(l.input)
+//@   ensures nl >= 0 ==> l.pos <= p0 + nl && result == old(l.lastState)
+//@   ensures nl >= 0 ==> forall k int :: l.pos <= k && k < p0 + nl ==> l.input[k] == ' ' || l.input[k] == 9 || l.input[k] == 13
+//@   ensures nl >= 0 && l.pos > p0 + 2 ==> !(l.input[l.pos-1] == ' ' || l.input[l.pos-1] == 9 || l.input[l.pos-1] == 13)
+//@   loop 1
+//@     invariant 2 <= i && i <= nl && nl >= 0 && l.pos == p0 && l.start == old(l.start) && sent(l.tokens) == old(sent(l.tokens)) && lexOK(l)
+//@     invariant forall k int :: p0 + i <= k && k < p0 + nl ==> l.input[k] == ' ' || l.input[k] == 9 || l.input[k] == 13
+
+//@ func lexNumber
+//@   property C05 C06
+//@   owns sml.lexer, sml.token
+//@   modifies l.pos, l.start, l.width
+//@   requires lexOK(l) && l.start == l.pos
+//@   let tok = lastsent(l.tokens)
+//@   ensures sent(l.tokens) == old(sent(l.tokens)) + 1
+//@   ensures tok.typ == tokenTypeNumber || tok.typ == tokenTypeError
+//@   ensures tok.typ == tokenTypeNumber ==> lexOK(l) && l.start == l.pos && tok.val == substr(l.input, old(l.pos), l.pos)
+
+//@ func lexDataItemSize
+//@   property C15 C06
+//@   owns sml.lexer, sml.token
+//@   modifies l.pos, l.start, l.width
+//@   requires lexOK(l) && l.start == l.pos
+//@   let tok = lastsent(l.tokens)
+//@   ensures sent(l.tokens) == old(sent(l.tokens)) + 1
+//@   ensures tok.typ == tokenTypeDataItemSize || tok.typ == tokenTypeError
+//@   ensures tok.typ == tokenTypeDataItemSize ==> lexOK(l) && l.start == l.pos
+
+//@ func lexMessageHeader
+//@   property C06 C08 C19
+//@   owns sml.lexer, sml.token
+//@   modifies l.pos, l.start, l.width
+//@   requires lexOK(l)
+//@   ensures sent(l.tokens) <= old(sent(l.tokens)) + 1 && sent(l.tokens) >= old(sent(l.tokens))
+//@   ensures !closed(l.tokens) ==> lexOK(l)
+//@   ensures sent(l.tokens) == old(sent(l.tokens)) + 1 && lastsent(l.tokens).typ == tokenTypeMessageEnd ==> result == lexMessageHeader && l.start == l.pos
+//@   loop 1
+//@     invariant lexOK(l) && sent(l.tokens) == old(sent(l.tokens))
+//@   loop 2
+//@     invariant lexOK(l) && sent(l.tokens) == old(sent(l.tokens)) && l.start < l.pos
+
+//@ func lexMessageText
+//@   property C06 C08 C19
+//@   owns sml.lexer, sml.token
+//@   modifies l.pos, l.start, l.width
+//@   requires lexOK(l)
+//@   ensures sent(l.tokens) <= old(sent(l.tokens)) + 1 && sent(l.tokens) >= old(sent(l.tokens))
+//@   ensures !closed(l.tokens) ==> lexOK(l)
+//@   ensures sent(l.tokens) == old(sent(l.tokens)) + 1 && lastsent(l.tokens).typ == tokenTypeMessageEnd ==> result == lexMessageHeader && l.start == l.pos
+//@   loop 1
+//@     invariant lexOK(l) && sent(l.tokens) == old(sent(l.tokens))
